@@ -39,7 +39,7 @@ def wf_rule_or_minimize(ctx, st, rule):
     return body
 
 
-@unit("C12.minmax_agg", "C12", "ngo.minmax_aggregates:MinMaxAggregator._minmax_agg")
+@unit("C12.minmax_agg", "C12", "ngo.minmax_aggregates:MinMaxAggregator._minmax_agg", fallback={"mirror": "corpus", "trait": "minmax_chains"})
 def minmax_agg(ctx):
     """_minmax_agg returns None or a literal of the rule's body whose atom is a #min/#max body aggregate"""
     m = ctx.m
@@ -81,7 +81,7 @@ def extreme_def(sem, F, func, W, ext):
     return z3.If(func == F["Max"], z3.Or(z3.And(empty, ext == sem.vinf), is_max), z3.Or(z3.And(empty, ext == sem.vsup), is_min))
 
 
-@unit("C12.process_rule", "C12", "ngo.minmax_aggregates:MinMaxAggregator._process_rule")
+@unit("C12.process_rule", "C12", "ngo.minmax_aggregates:MinMaxAggregator._process_rule", fallback={"mirror": "corpus", "trait": "minmax_chains"})
 def process_rule(ctx):
     """decision table: the one-rule-per-element translation is chosen only for (function, operator, sign) combinations
     for which  sign(t op #f W)  <=>  exists w in W. sign(t op w)  holds for every candidate set W (including the empty
@@ -149,7 +149,7 @@ def process_rule(ctx):
     ctx.cover("some-simple-path", [z3.BoolVal(n_simple > 0)])
 
 
-@unit("C12.replace_orig", "C12", "ngo.minmax_aggregates:MinMaxAggregator.replace_orig")
+@unit("C12.replace_orig", "C12", "ngo.minmax_aggregates:MinMaxAggregator.replace_orig", fallback={"mirror": "corpus", "trait": "minmax_chains"})
 def replace_orig(ctx):
     """the literals that replace the aggregate (result atom excluded) say about the result variable exactly what the
     guards of the aggregate literal say about the aggregate value -- including the sign of the literal; the head and
